@@ -33,6 +33,7 @@ type qCase struct {
 	Up     bool     `json:"up"`
 	Levels []int    `json:"levels"`
 	Role   []string `json:"role"`
+	Sib    []int    `json:"sib"`
 }
 
 // qName renders node i (1-based) as a target name: top-level `t<i>` (or `T<i>`, which sorts before the
@@ -309,6 +310,9 @@ func gcEngine(args []string) error {
 						if mech == "label" {
 							t.AddLabel("keepme")
 						}
+					}
+					if len(c.Sib) >= i && c.Sib[i-1] != 0 {
+						t.AddLabel("gc_sibling:" + c.qName(c.Sib[i-1]))
 					}
 					for j := 1; j <= c.N; j++ {
 						if j != i {
